@@ -73,7 +73,7 @@ def check(ctx):
     for mm in o["mismatches"]:
         ctx.violation(f"step {mm['step']}: " + "; ".join(mm["bad"]), mm)
     for b in o["pingpong"]:
-        if "harness" in b:
+        if b.startswith("harness") or ": harness exception" in b:
             raise MachineryError(b)
         ctx.violation(b, None)
     ctx.replays += o["foreign_n"]
